@@ -107,6 +107,15 @@ def gen_case(seed, tier, index=0):
                  'execs': [{'dur': round(odur * (0.5 + rr.random()), 3),
                             'exit': rr.choice(['Success'] * 5 + ['KnownIssue', 'ResourceExhausted'])}
                            for _ in range(12)]}
+    # the backend may refuse the observer's task (at any execution, also after the producers finished; for good when
+    # the default execution fails too)
+    lf = rr.choice([0.0, 0.0, 0.0, 0.15, 0.5])
+    if lf:
+        for e in plan['O']['execs']:
+            if rr.random() < lf:
+                e['launch_fail'] = rr.choice(['oserror', 'joblaunch', 'joblaunch', 'valueerror'])
+        if rr.random() < 0.3:
+            plan['O']['default']['launch_fail'] = rr.choice(['oserror', 'joblaunch'])
     return {'comps': comps, 'plan': plan, 'hook': {}, 'knobs': common.knobs_from(rr, tier),
             'sched_seed': rr.getrandbits(48)}
 
@@ -232,7 +241,9 @@ def run_case(case, schedule, opts):
         # (b) once all producers finished, it does not stop before an execution that began after their last output
         if stopped and notif and not ext_cancel and kill_after is None and could_consume and None not in p_last:
             last_out = max(p_last)
-            if not any(e[0] > last_out for e in o_launch):
+            # an execution the backend refused (failed submission) was still started by the engine
+            o_refused = [e for e in ev if e[2] == 'launch-fail' and e[3] == oref]
+            if not any(e[0] > last_out for e in o_launch + o_refused):
                 V('b:stopped-without-observing-final-output' if o_launch else 'b:stopped-without-ever-executing',
                   {'last_output_seq': last_out, 'launch_seqs': [e[0] for e in o_launch], 'notified_seq': notif[0][0]})
         # (c) bounded attempts after the notification
